@@ -48,7 +48,13 @@ pub fn setup_veth(route: Route6) -> Result<(), String> {
     sh(&format!("ip link set {SRV_IF} address {} up", mac(&SRV_MAC)))?;
     sh(&format!("ip link set {PEER_IF} address {} up", mac(&PEER_MAC)))?;
     sh(&format!("ip addr add {SRV_IP4}/24 dev {SRV_IF}"))?;
-    sh(&format!("ip -6 addr add {SRV_GLOBAL6}/64 dev {SRV_IF} nodad"))?;
+    {
+        // (see NlMonitor) the service must not start before the kernel has finished announcing
+        // the interface's own addresses, or the announcement races with the service's initial dump
+        let mut mon = NlMonitor::open()?;
+        sh(&format!("ip -6 addr add {SRV_GLOBAL6}/64 dev {SRV_IF} nodad"))?;
+        mon.wait_addr(true, SRV_GLOBAL6.parse().unwrap())?;
+    }
     match route {
         Route6::None => {}
         Route6::ViaPeerSide => sh(&format!("ip -6 route add default via fe80::99 dev {SRV_IF}"))?,
@@ -64,13 +70,108 @@ pub fn setup_veth(route: Route6) -> Result<(), String> {
     Ok(())
 }
 
-/// Run-time address changes on the advertising interface (the kernel notifies the service's
-/// netlink listener, as when an address is renumbered, withdrawn or expires).
-pub fn addr6_add(addr: &str, len: u8) -> Result<(), String> {
-    sh(&format!("ip -6 addr add {addr}/{len} dev {SRV_IF} nodad"))
+/// A netlink listener of the harness's own, subscribed to the IPv6 address groups.  The kernel
+/// announces a new IPv6 address from a work queue (the duplicate-address-detection worker, also with
+/// `nodad`), i.e. some real time AFTER `ip addr add` has returned -- an arbitrary amount on a loaded
+/// machine.  A notification is broadcast to all listeners in one pass, so once the harness has seen
+/// it, and one more operation that needs the rtnl lock (which the worker holds while it notifies)
+/// has completed, the service's listener has it queued too.  No wall-clock value enters a verdict:
+/// the wait either ends with the notification or is a machinery error.
+pub struct NlMonitor {
+    fd: i32,
 }
-pub fn addr6_del(addr: &str, len: u8) -> Result<(), String> {
-    sh(&format!("ip -6 addr del {addr}/{len} dev {SRV_IF}"))
+
+impl NlMonitor {
+    pub fn open() -> Result<Self, String> {
+        unsafe {
+            let fd = libc::socket(libc::AF_NETLINK, libc::SOCK_RAW | libc::SOCK_CLOEXEC, libc::NETLINK_ROUTE);
+            if fd < 0 {
+                return Err(format!("netlink socket: {}", std::io::Error::last_os_error()));
+            }
+            let mut sa: libc::sockaddr_nl = std::mem::zeroed();
+            sa.nl_family = libc::AF_NETLINK as u16;
+            sa.nl_groups = 0x100; // RTMGRP_IPV6_IFADDR
+            if libc::bind(fd, &sa as *const _ as *const libc::sockaddr, std::mem::size_of::<libc::sockaddr_nl>() as u32) != 0 {
+                let e = std::io::Error::last_os_error();
+                libc::close(fd);
+                return Err(format!("netlink bind: {e}"));
+            }
+            Ok(NlMonitor { fd })
+        }
+    }
+
+    /// Block until the kernel has announced that `addr` was added to (`added`) / removed from an
+    /// interface, then pass once through the rtnl lock.
+    pub fn wait_addr(&mut self, added: bool, addr: Ipv6Addr) -> Result<(), String> {
+        let want_type: u16 = if added { 20 } else { 21 }; // RTM_NEWADDR / RTM_DELADDR
+        let t0 = std::time::Instant::now();
+        let mut buf = vec![0u8; 65536];
+        loop {
+            let mut pfd = libc::pollfd { fd: self.fd, events: libc::POLLIN, revents: 0 };
+            let rc = unsafe { libc::poll(&mut pfd, 1, 1000) };
+            if rc <= 0 {
+                if t0.elapsed() > std::time::Duration::from_secs(60) {
+                    return Err(format!("the kernel did not announce the address change of {addr} within 60 s"));
+                }
+                continue;
+            }
+            let n = unsafe { libc::recv(self.fd, buf.as_mut_ptr() as *mut libc::c_void, buf.len(), 0) };
+            if n <= 0 {
+                continue;
+            }
+            let b = &buf[..n as usize];
+            let mut off = 0;
+            let mut seen = false;
+            while off + 16 <= b.len() {
+                let len = u32::from_ne_bytes([b[off], b[off + 1], b[off + 2], b[off + 3]]) as usize;
+                let ty = u16::from_ne_bytes([b[off + 4], b[off + 5]]);
+                if len < 16 || off + len > b.len() {
+                    break;
+                }
+                if ty == want_type && len >= 16 + 8 {
+                    // ifaddrmsg (8 octets), then attributes
+                    let mut a = off + 16 + 8;
+                    while a + 4 <= off + len {
+                        let alen = u16::from_ne_bytes([b[a], b[a + 1]]) as usize;
+                        let aty = u16::from_ne_bytes([b[a + 2], b[a + 3]]);
+                        if alen < 4 || a + alen > off + len {
+                            break;
+                        }
+                        if (aty == 1 || aty == 2) && alen == 4 + 16 && b[a + 4..a + 20] == addr.octets() {
+                            seen = true;
+                        }
+                        a += (alen + 3) & !3;
+                    }
+                }
+                off += (len + 3) & !3;
+            }
+            if seen {
+                break;
+            }
+        }
+        // one operation under the rtnl lock: it cannot complete before the notifier has let go
+        sh(&format!("ip link set {PEER_IF} up"))
+    }
+}
+
+impl Drop for NlMonitor {
+    fn drop(&mut self) {
+        unsafe {
+            libc::close(self.fd);
+        }
+    }
+}
+
+/// Run-time address changes on the advertising interface (the kernel notifies the service's
+/// netlink listener, as when an address is renumbered, withdrawn or expires).  Returns once the
+/// kernel has announced the change to every netlink listener.
+pub fn addr6_add(mon: &mut NlMonitor, addr: &str, len: u8) -> Result<(), String> {
+    sh(&format!("ip -6 addr add {addr}/{len} dev {SRV_IF} nodad"))?;
+    mon.wait_addr(true, addr.parse().map_err(|e| format!("{addr}: {e}"))?)
+}
+pub fn addr6_del(mon: &mut NlMonitor, addr: &str, len: u8) -> Result<(), String> {
+    sh(&format!("ip -6 addr del {addr}/{len} dev {SRV_IF}"))?;
+    mon.wait_addr(false, addr.parse().map_err(|e| format!("{addr}: {e}"))?)
 }
 
 pub fn teardown_veth() {
